@@ -64,6 +64,7 @@ def run(tier):
     pairs = QUICK_PAIRS if quick else THOROUGH_PAIRS
     # the design is the one checked for C06/C07/C11: the same specifications, values created in another module
     lib.mc_step(c, "MC_CGlueObj", "MC_CGlueObj_q.cfg", workers=12, timeout=3400, what="CGlueObj spec")
+    lib.mc_step(c, "MC_CGlueObj", "MC_CGlueObj_cast.cfg", workers=12, timeout=1800, what="CGlueObj spec (failing casts)")
     j1, n1 = lib.gen_step(c, "Gen_CGlueObj", "Gen_CGlueObj_d2.cfg", "gen_obj_d2")
     j2, n2 = lib.gen_step(c, "Gen_CGlueObj", "Gen_CGlueObj.cfg", "gen_obj_sim", simulate="num=%d" % (20 if quick else 200), workers=4, seed_=lib.seed())
     jv, nv = lib.gen_step(c, "Gen_CVec", "Gen_CVec.cfg", "gen_cvec_x")
